@@ -5,6 +5,8 @@ type nat =
 | O
 | S of nat
 
+val option_map : ('a1 -> 'a2) -> 'a1 option -> 'a2 option
+
 val fst : ('a1 * 'a2) -> 'a1
 
 val snd : ('a1 * 'a2) -> 'a2
@@ -45,14 +47,6 @@ module Nat :
 
 module Pos :
  sig
-  type mask =
-  | IsNul
-  | IsPos of positive
-  | IsNeg
- end
-
-module Coq_Pos :
- sig
   val succ : positive -> positive
 
   val add : positive -> positive -> positive
@@ -60,21 +54,6 @@ module Coq_Pos :
   val add_carry : positive -> positive -> positive
 
   val pred_double : positive -> positive
-
-  type mask = Pos.mask =
-  | IsNul
-  | IsPos of positive
-  | IsNeg
-
-  val succ_double_mask : mask -> mask
-
-  val double_mask : mask -> mask
-
-  val double_pred_mask : positive -> mask
-
-  val sub_mask : positive -> positive -> mask
-
-  val sub_mask_carry : positive -> positive -> mask
 
   val mul : positive -> positive -> positive
 
@@ -85,20 +64,12 @@ module Coq_Pos :
   val compare : positive -> positive -> comparison
 
   val eqb : positive -> positive -> bool
+
+  val of_succ_nat : nat -> positive
  end
 
 module N :
  sig
-  val succ_double : n -> n
-
-  val double : n -> n
-
-  val add : n -> n -> n
-
-  val sub : n -> n -> n
-
-  val mul : n -> n -> n
-
   val compare : n -> n -> comparison
 
   val eqb : n -> n -> bool
@@ -107,13 +78,7 @@ module N :
 
   val ltb : n -> n -> bool
 
-  val pos_div_eucl : positive -> n -> n * n
-
-  val div_eucl : n -> n -> n * n
-
-  val div : n -> n -> n
-
-  val modulo : n -> n -> n
+  val max : n -> n -> n
  end
 
 module Z :
@@ -142,18 +107,36 @@ module Z :
 
   val leb : z -> z -> bool
 
+  val ltb : z -> z -> bool
+
   val eqb : z -> z -> bool
 
+  val to_N : z -> n
+
+  val of_nat : nat -> z
+
   val of_N : n -> z
+
+  val pos_div_eucl : positive -> z -> z * z
+
+  val div_eucl : z -> z -> z * z
+
+  val div : z -> z -> z
+
+  val modulo : z -> z -> z
  end
 
 val map : ('a1 -> 'a2) -> 'a1 list -> 'a2 list
+
+val fold_right : ('a2 -> 'a1 -> 'a1) -> 'a1 -> 'a2 list -> 'a1
 
 val existsb : ('a1 -> bool) -> 'a1 list -> bool
 
 val forallb : ('a1 -> bool) -> 'a1 list -> bool
 
 val combine : 'a1 list -> 'a2 list -> ('a1 * 'a2) list
+
+val firstn : nat -> 'a1 list -> 'a1 list
 
 val ex_keep : (((((nat * n) * z) * z list) * z option) * positive) * bool
 
@@ -163,12 +146,22 @@ val max_int : z -> bool -> z
 
 val in_rangeb : z -> bool -> z -> bool
 
+val is_cont : z -> bool
+
+val is_surrogate : z -> bool
+
+val utf8_decode : z list -> z list option
+
+val utf8_ref : z -> z list
+
 type exc =
 | TypeError
 | ValueError
 | OverflowError
 | AttributeError
-| UnicodeError
+| UnicodeEncodeError
+| UnicodeDecodeError
+| SystemError
 | IndexTooMany
 | IndexNotEnough
 | Unmodelled
@@ -280,19 +273,32 @@ type senc =
 
 type scfg = { sc_type : stype; sc_enc : senc }
 
-val is_surrogate : n -> bool
+val zs : n list -> z list
+
+val ns : z list -> n list
+
+val is_surrogate0 : n -> bool
+
+val encodable : n -> bool
 
 val utf8_enc1 : n -> n list option
 
 val utf8_encode : n list -> n list res
 
-val cont : n -> bool
-
-val rcons : n -> n list res -> n list res
-
-val utf8_decode : n list -> n list res
+val utf8_decode0 : n list -> n list res
 
 val all_ascii : n list -> bool
+
+val maxchar : n list -> n
+
+type ukind =
+| K1BYTE
+| K2BYTE
+| K4BYTE
+
+val kind_of : n list -> ukind
+
+val is_ascii : n list -> bool
 
 type codec = { cd_enc : (n list -> n list res);
                cd_dec : (n list -> n list res) }
@@ -301,13 +307,29 @@ val ascii_codec : codec
 
 val utf8_codec : codec
 
+val str_accepts_unicode : senc -> bool
+
 val encode_with : senc -> n list -> n list res
 
-val as_string_and_size : scfg -> pyval -> n list res
+val py_as_utf8 : n list -> n list res
+
+type api =
+| Full
+| Limited of bool
+
+val unicode_asas : api -> senc -> n list -> (n list * nat) res
+
+val obj_asas : api -> scfg -> pyval -> (n list * nat) res
+
+val sized : (n list * nat) -> n list res
+
+val as_string_and_size_l : api -> scfg -> pyval -> n list res
 
 val decode_with : senc -> n list -> n list res
 
 val from_string_and_size : scfg -> n list -> pyval res
+
+val string_from_py_l : api -> scfg -> pyval -> cval res
 
 val string_from_py : scfg -> pyval -> cval res
 
@@ -315,18 +337,29 @@ val string_to_py : scfg -> cval -> pyval res
 
 val until_nul : n list -> n list
 
+val charp_from_py_l : api -> scfg -> pyval -> cval res
+
 val charp_from_py : scfg -> pyval -> cval res
 
 val charp_to_py : scfg -> cval -> pyval res
+
+val charp_roundtrip_l : api -> scfg -> pyval -> pyval res
+
+val string_roundtrip_l : api -> scfg -> pyval -> pyval res
 
 val charp_roundtrip : scfg -> pyval -> pyval res
 
 val string_roundtrip : scfg -> pyval -> pyval res
 
+val charp_strlen_l : api -> scfg -> pyval -> pyval res
+
+val string_size_l : api -> scfg -> pyval -> pyval res
+
 type leaf =
 | LInt of z * bool
 | LDouble
 | LString
+| LCharp
 
 type ctype =
 | TLeaf of leaf
